@@ -1990,3 +1990,37 @@ def p_proceed( ctx ):
         else:
             res.ok( src, ub[0], 'Unregister: nothing before proceed = False can raise' )
     return res
+
+
+# ---------------------------------------------------------------------------------------- C07: S-RESOLVE (sibling cross-check of path-resolution failure handling)
+
+@rule( 'S-RESOLVE', props=( 'C07', ), floor=3 )
+def s_resolve( ctx ):
+    """every resolution of a request's target path inside a request() handler fails into a CIP status (inside a converting try), the same way for a standalone request and for a bundle member"""
+    res = Result( 'S-RESOLVE' )
+    for rel, qn in (( DEVICE, 'Connection_Manager.request' ), ( DEVICE, 'Message_Router.request' ), ( LOGIX, 'Logix.request' )):
+        src = ctx.src( rel )
+        fn = src.get( qn )
+        for c in walk_no_nested( fn ):
+            if not ( isinstance( c, ast.Call ) and ( call_name( c ) in ( 'resolve', 'device.resolve' ) or call_name( c ) == 'self.route' )):
+                continue
+            # routing of the *whole* request to another object at the top of a handler (`target = self.route( data, fail=ROUTE_FALSE )`)
+            # returns None instead of raising; skip calls that cannot raise by construction
+            if call_name( c ) == 'self.route' and any( k.arg == 'fail' and ( dotted( k.value ) or '' ).endswith( 'ROUTE_FALSE' ) for k in c.keywords ):
+                res.ok( src, c, '%s: %s cannot raise (fail=ROUTE_FALSE)' % ( qn, norm_text( c )[:50] ), nontrivial=False )
+                continue
+            tries = [ a for a in src.ancestors( c ) if isinstance( a, ast.Try ) and any( c is x for b in a.body for x in ast.walk( b )) ]
+            conv = None
+            for t in tries:
+                for h in t.handlers:
+                    catches = h.type is None or dotted( h.type ) in ( 'Exception', 'BaseException' )
+                    if catches and not any( isinstance( x, ast.Raise ) for x in ast.walk( h )):
+                        conv = t
+                if conv is not None:
+                    break
+            if conv is not None:
+                res.ok( src, c, '%s: failure of %s becomes a CIP error status' % ( qn, norm_text( c )[:40] ))
+            else:
+                res.bad( src, c, '%s: %s is not inside a status-converting try' % ( qn, norm_text( c )[:60] ),
+                         'when the path does not resolve (e.g. an unknown tag) the standalone request fails as a whole (exception -> encapsulation status 0x08, session ends) while the same request as a bundle member gets CIP status 0x05', func=qn )
+    return res
